@@ -1352,6 +1352,23 @@ func (c *Ctx) initialState(fn *ssa.Function) *State {
 	c.cur = run
 	st := NewState()
 	st.trace = st.trace.push("package initialisation")
+	// package-level variables are zero before the initialisers run (Go semantics): fields a
+	// composite literal does not mention keep that value
+	for _, m := range pkg.Members {
+		if g, ok := m.(*ssa.Global); ok {
+			if strings.HasSuffix(g.Name(), "init$guard") {
+				continue
+			}
+			fam, sort := c.famGlobal(g)
+			z := c.Reg.Zero(deref(g.Type()))
+			if z.Sort != sort {
+				continue
+			}
+			st.arrays[fam] = z
+			st.entry[fam] = z
+			c.famSorts[fam] = sort
+		}
+	}
 	var outs []outcome
 	func() {
 		defer func() {
